@@ -47,6 +47,7 @@ def main():
         ent = {}
         for key, items in sorted(res.items()):
             ent[key] = {'counts': sorted(i[0] for i in items),
+                        'totals': sorted(i[5] for i in items),
                         'conditions': sorted({c for i in items for c in i[1]}),
                         'statement': items[0][3]}
             if not write:
